@@ -112,7 +112,7 @@ def cast_elem(v, src, dst, what='cast'):
                     raise Undecided('float->int cast out of range (undefined behaviour in C)')
                 return iv
             lo, hi = int_range(dst)
-            ok = core.CTX.prove('cast-in-range:%s:%s' % (dst.name, what), z3.And(iv.t >= lo, iv.t <= hi), kind='side')
+            ok = core.CTX.valid(z3.And(iv.t >= lo, iv.t <= hi))
             if not ok:
                 raise Undecided('float->int cast possibly out of range (undefined behaviour in C)')
             return iv
@@ -221,7 +221,7 @@ class SBase:
         raise Undecided('.flat')
     @property
     def symbolic(self):
-        return any(isinstance(e, (SNum, SBool)) for e in self.elems)
+        return any(isinstance(e, (SNum, SBool)) or type(e).__name__ == 'Log2Of' for e in self.elems)
 
     def __len__(self):
         if self.ndim == 0:
@@ -689,7 +689,7 @@ def binary(op, a, b):
     elif ka == 'arr':
         adt = va.dtype
         cdt = _weak_result_dtype(adt, vb)
-        if op in _CMP and adt.kind != 'O':
+        if (op in _CMP or op == 'true_divide') and adt.kind != 'O':
             pass
         elif cdt.kind in INT_KINDS and kind_of(vb) == 'int':
             _check_pyint_fits(vb, cdt)
@@ -701,7 +701,7 @@ def binary(op, a, b):
     else:
         bdt = vb.dtype
         cdt = _weak_result_dtype(bdt, va)
-        if op in _CMP and bdt.kind != 'O':
+        if (op in _CMP or op == 'true_divide') and bdt.kind != 'O':
             pass
         elif cdt.kind in INT_KINDS and kind_of(va) == 'int':
             _check_pyint_fits(va, cdt)
